@@ -280,7 +280,9 @@ fn generate(rng: &mut Rng) -> Scenario {
         let engine = *rng.pick(&engines_enabled);
         let reach = match engine {
             Engine::Interp => *rng.pick(&[Reach::RawPacket, Reach::Mbuff, Reach::Allowed, Reach::Allowed]),
-            _ => *rng.pick(&[Reach::RawPacket, Reach::RawPacket, Reach::Mbuff]),
+            // compiled x86-64 code has no bounds checks: it reaches the word by absolute address too
+            Engine::Jit => *rng.pick(&[Reach::RawPacket, Reach::RawPacket, Reach::Mbuff, Reach::Allowed]),
+            Engine::Cl => *rng.pick(&[Reach::RawPacket, Reach::RawPacket, Reach::Mbuff]),
         };
         let k = rng.range(1, 4) as usize;
         let mut adds = Vec::new();
